@@ -14,10 +14,11 @@ Anything of unexpected shape raises TemplateMismatch.
 import ast
 import struct
 
-from translate.astutil import TemplateMismatch, body_nodoc, expect, get_def, load
+from translate.astutil import TemplateMismatch, body_nodoc, const_int, expect, get_def, lean_int, load
 
 REL = "src/scenic/domains/driving/roads.py"
 SER = "src/scenic/core/serialization.py"
+XODR = "src/scenic/formats/opendrive/xodr_parser.py"
 
 FIELD = {"intersections": "intersections", "roads": "roads", "shoulders": "shoulders", "sidewalks": "sidewalks",
          "connectingRoads": "connecting", "lanes": "lanes", "laneGroups": "groups", "sections": "sections",
@@ -51,6 +52,122 @@ def findPointIn(self, point, elems, reject):
         raise RejectionException(message)
     return None
 '''
+
+# reference shapes (compared modulo renaming of locals) of the methods that decide which centreline supplies the
+# traffic direction at a point
+DIR_REFS = {
+    "LinearElement._defaultHeadingAt": """
+def _defaultHeadingAt(self, point):
+    point = _toVector(point)
+    start, end = self.centerline.nearestSegmentTo(point)
+    return start.angleTo(end)
+""",
+    "Road._defaultHeadingAt": """
+def _defaultHeadingAt(self, point):
+    point = _toVector(point)
+    group = self.laneGroupAt(point)
+    if group:
+        return group.orientation[point]
+    return super()._defaultHeadingAt(point)
+""",
+    "LaneGroup._defaultHeadingAt": """
+def _defaultHeadingAt(self, point):
+    point = _toVector(point)
+    lane = self.laneAt(point)
+    if lane:
+        return lane.orientation[point]
+    return super()._defaultHeadingAt(point)
+""",
+    "Intersection._defaultHeadingAt": """
+def _defaultHeadingAt(self, point):
+    point = _toVector(point)
+    man = min(self.maneuvers, key=lambda man: man.connectingLane.distanceTo(point))
+    return man.connectingLane.orientation[point]
+""",
+    "Intersection.maneuversAt": """
+def maneuversAt(self, point):
+    maneuvers = self.network._findPointInAll(point, self.maneuvers, key=lambda m: m.connectingLane)
+    if maneuvers:
+        return maneuvers
+    man = min(self.maneuvers, key=lambda man: man.connectingLane.distanceTo(point))
+    return [man]
+""",
+    "Intersection.nominalDirectionsAt": """
+def nominalDirectionsAt(self, point):
+    point = _toVector(point)
+    maneuvers = self.maneuversAt(point)
+    assert maneuvers, self
+    return tuple(m.connectingLane.orientation[point] for m in maneuvers)
+""",
+    "NetworkElement.nominalDirectionsAt": """
+def nominalDirectionsAt(self, point):
+    assert self.orientation, self
+    return (self.orientation[_toVector(point)],)
+""",
+    "Network._findPointInAll": """
+def _findPointInAll(self, point, things, key=lambda e: e):
+    point = _toVector(point)
+    found = []
+    for thing in things:
+        if key(thing).containsPoint(point):
+            found.append(thing)
+    if not found and self.tolerance > 0:
+        for thing in things:
+            if key(thing).distanceTo(point) <= self.tolerance:
+                found.append(thing)
+    return found
+""",
+    "Network.nominalDirectionsAt": """
+def nominalDirectionsAt(self, point, reject=False):
+    elem = self.findPointIn(point, self._nominalDirElems, reject)
+    return elem.nominalDirectionsAt(point) if elem is not None else ()
+""",
+    "Network._defaultRoadDirection": """
+def _defaultRoadDirection(self, point):
+    point = _toVector(point)
+    elem = self.findPointIn(point, self._nominalDirElems, reject=False)
+    return elem.orientation[point] if elem is not None else 0
+""",
+}
+
+SECTION_ORDER_REF = """
+def f(self):
+    forward, backward = [], []
+    rightmost = min(self.lanesByOpenDriveID)
+    assert rightmost != 0, self.lanesByOpenDriveID
+    leftmost = max(self.lanesByOpenDriveID)
+    for i in range(rightmost, leftmost + 1):
+        if i == 0:
+            continue
+        if i not in self.lanesByOpenDriveID:
+            continue
+        (forward if i < 0 else backward).append(self.lanesByOpenDriveID[i])
+    self.forwardLanes = tuple(forward)
+    self.backwardLanes = tuple(backward)
+    self.lanes = self.forwardLanes + self.backwardLanes
+"""
+
+ADJ_TAIL_REF = """
+def f(self, lane, lanes, leftID, rightID):
+    lane._laneToLeft = lanes.get(leftID)
+    lane._laneToRight = lanes.get(rightID)
+    if self.drive_on_right:
+        lane._fasterLane = lane._laneToLeft
+        lane._slowerLane = lane._laneToRight
+    else:
+        lane._slowerLane = lane._laneToLeft
+        lane._fasterLane = lane._laneToRight
+    if lane._fasterLane and lane._fasterLane.isForward != lane.isForward:
+        lane._fasterLane = None
+    if lane._slowerLane and lane._slowerLane.isForward != lane.isForward:
+        lane._slowerLane = None
+    adj = []
+    if lane._laneToLeft:
+        adj.append(lane._laneToLeft)
+    if lane._laneToRight:
+        adj.append(lane._laneToRight)
+    lane.adjacentLanes = tuple(adj)
+"""
 
 
 def shape(fn):
@@ -162,6 +279,186 @@ def two_stage(fn):
            and isinstance(e.orelse.func.value, ast.Name) and e.orelse.func.value.id == var, f"{fn.name}: second call")
     return first, e.orelse.func.attr
 
+def stmts_shape(stmts, args):
+    """shape of a statement list, wrapped into a function with the given parameter names"""
+    fn = ast.parse("def f(%s):\n    pass" % ", ".join(args)).body[0]
+    fn.body = list(stmts)
+    return shape(fn)
+
+
+def id_guard(test, var):
+    """`var < k` / `var == k` -> ('lt'|'eq', k)"""
+    expect(isinstance(test, ast.Compare) and len(test.ops) == 1 and isinstance(test.left, ast.Name) and test.left.id == var,
+           f"adjacency: guard {ast.unparse(test)[:40]}")
+    k = const_int(test.comparators[0])
+    if isinstance(test.ops[0], ast.Lt):
+        return ("lt", k)
+    if isinstance(test.ops[0], ast.Eq):
+        return ("eq", k)
+    raise TemplateMismatch(f"adjacency: comparison {ast.unparse(test)[:40]}")
+
+
+def id_expr(node, var):
+    """`var + k` / `var - k` / `k` -> ('add', k) | ('const', k)"""
+    if isinstance(node, ast.BinOp) and isinstance(node.left, ast.Name) and node.left.id == var:
+        k = const_int(node.right)
+        if isinstance(node.op, ast.Add):
+            return ("add", k)
+        if isinstance(node.op, ast.Sub):
+            return ("add", -k)
+        raise TemplateMismatch(f"adjacency: operator in {ast.unparse(node)[:40]}")
+    return ("const", const_int(node))
+
+
+def id_chain(node, var, target):
+    """if/elif/else chain (statement form) or conditional expression assigning `target` -> [(guard, expr)]"""
+    out = []
+    if isinstance(node, ast.If):
+        cur = node
+        while True:
+            expect(len(cur.body) == 1 and isinstance(cur.body[0], ast.Assign) and ast.unparse(cur.body[0].targets[0]) == target,
+                   f"adjacency: branch of the {target} chain")
+            out.append((id_guard(cur.test, var), id_expr(cur.body[0].value, var)))
+            if len(cur.orelse) == 1 and isinstance(cur.orelse[0], ast.If):
+                cur = cur.orelse[0]
+                continue
+            expect(len(cur.orelse) == 1 and isinstance(cur.orelse[0], ast.Assign) and ast.unparse(cur.orelse[0].targets[0]) == target,
+                   f"adjacency: else branch of the {target} chain")
+            out.append((("otherwise", 0), id_expr(cur.orelse[0].value, var)))
+            return out
+    expect(isinstance(node, ast.Assign) and ast.unparse(node.targets[0]) == target, f"adjacency: assignment of {target}")
+    v = node.value
+    while isinstance(v, ast.IfExp):
+        out.append((id_guard(v.test, var), id_expr(v.body, var)))
+        v = v.orelse
+    out.append((("otherwise", 0), id_expr(v, var)))
+    return out
+
+
+def extract_adjacency(d):
+    """xodr_parser.Road.toScenicRoad: the loop that connects lane sections to their neighbours"""
+    src, tree = load(XODR)
+    fn = get_def(tree, "Road.toScenicRoad", XODR)
+    loops = [x for x in fn.body if isinstance(x, ast.For) and ast.unparse(x.iter) == "roadSections" and x.body
+             and ast.unparse(x.body[0]) == "lanes = section.lanesByOpenDriveID"]
+    expect(len(loops) == 1 and len(loops[0].body) == 2 and isinstance(loops[0].body[1], ast.For),
+           "toScenicRoad: adjacency loop over roadSections not found")
+    inner = loops[0].body[1]
+    expect(ast.unparse(inner.target) == "(id_, lane)" and ast.unparse(inner.iter) == "lanes.items()", "toScenicRoad: adjacency inner loop")
+    body = inner.body
+    expect(len(body) >= 4, "toScenicRoad: adjacency loop body")
+    d["adjLeft"] = id_chain(body[0], "id_", "leftID")
+    d["adjRight"] = id_chain(body[1], "id_", "rightID")
+    tail = body[2:]
+    ref = ast.parse(ADJ_TAIL_REF).body[0]
+    if stmts_shape(tail, ["self", "lane", "lanes", "leftID", "rightID"]) != shape(ref):
+        # the only variation that is data: which side is faster when driving on the right
+        swapped = ADJ_TAIL_REF.replace("lane._fasterLane = lane._laneToLeft\n        lane._slowerLane = lane._laneToRight",
+                                       "lane._fasterLane = lane._laneToRight\n        lane._slowerLane = lane._laneToLeft", 1) \
+                              .replace("lane._slowerLane = lane._laneToLeft\n        lane._fasterLane = lane._laneToRight",
+                                       "lane._slowerLane = lane._laneToRight\n        lane._fasterLane = lane._laneToLeft", 1)
+        if stmts_shape(tail, ["self", "lane", "lanes", "leftID", "rightID"]) == shape(ast.parse(swapped).body[0]):
+            d["fasterIsLeftOnRight"] = False
+        else:
+            raise TemplateMismatch("toScenicRoad: the assignments of _laneToLeft/_laneToRight/_fasterLane/_slowerLane/adjacentLanes "
+                                   "no longer have the reference shape")
+    else:
+        d["fasterIsLeftOnRight"] = True
+    d["dropOpposite"] = True
+    expect(any(isinstance(k, ast.keyword) and k.arg == "isForward" and ast.unparse(k.value) == "id_ < 0" for k in ast.walk(fn)),
+           "toScenicRoad: LaneSection(isForward=id_ < 0)")
+    # lane order of a road section (roads.py)
+    rsrc, rtree = load(REL)
+    post = get_def(rtree, "RoadSection.__attrs_post_init__", REL)
+    ifs = [x for x in body_nodoc(post) if isinstance(x, ast.If) and ast.unparse(x.test) == "self.lanesByOpenDriveID and (not self.lanes)"]
+    expect(len(ifs) == 1, "RoadSection.__attrs_post_init__: branch building the lane tuples from lanesByOpenDriveID")
+    if stmts_shape(ifs[0].body, ["self"]) != shape(ast.parse(SECTION_ORDER_REF).body[0]):
+        raise TemplateMismatch("RoadSection.__attrs_post_init__: lane order no longer has the reference shape "
+                               "(ids from rightmost to leftmost, 0 skipped, negative forward, positive backward)")
+
+
+def extract_direction(tree, d):
+    for qual, ref in DIR_REFS.items():
+        if shape(get_def(tree, qual, REL)) != shape(ast.parse(ref).body[0]):
+            raise TemplateMismatch(f"{qual} no longer has the reference shape")
+    for cls in ("Lane", "Shoulder"):  # inherit LinearElement._defaultHeadingAt / NetworkElement.nominalDirectionsAt
+        c = get_def(tree, cls, REL)
+        expect(not any(isinstance(x, ast.FunctionDef) and x.name in ("_defaultHeadingAt", "nominalDirectionsAt") for x in c.body),
+               f"{cls} overrides _defaultHeadingAt / nominalDirectionsAt")
+    for cls in ("Road", "LaneGroup"):
+        c = get_def(tree, cls, REL)
+        expect(not any(isinstance(x, ast.FunctionDef) and x.name == "nominalDirectionsAt" for x in c.body),
+               f"{cls} overrides nominalDirectionsAt")
+    d["headingChain"] = [("road", "groups"), ("laneGroup", "lanes")]
+
+
+def extract_elem_lookups(tree, d):
+    out = []
+    for owner, kind, name in (("Road", "road", "sectionAt"), ("Road", "road", "laneAt"), ("Road", "road", "laneGroupAt"),
+                              ("LaneGroup", "laneGroup", "laneAt"), ("Lane", "lane", "sectionAt"),
+                              ("RoadSection", "roadSection", "laneAt")):
+        attrs = direct_lookup(get_def(tree, f"{owner}.{name}", REL), {})
+        expect(len(attrs) == 1 and FIELD.get(attrs[0]), f"{owner}.{name}: searched list")
+        out.append((f"{owner}.{name}", kind, attrs[0], None))
+    first, second = two_stage(get_def(tree, "Road.laneSectionAt", REL))
+    expect(first == "laneAt" and second == "sectionAt", "Road.laneSectionAt is not self.laneAt then lane.sectionAt")
+    out.append(("Road.laneSectionAt", "road", "lanes", "sections"))
+    expect(dict((n, a) for n, _, a, _ in out)["Road.laneAt"] == "lanes" and dict((n, a) for n, _, a, _ in out)["Lane.sectionAt"] == "sections",
+           "Road.laneSectionAt: lists of its two stages")
+    d["elemLookups"] = out
+
+
+def extract_path(ff, d):
+    """the front of Network.fromFile: handlers order, extension search, errors"""
+    body = body_nodoc(ff)
+    srcs = {ast.unparse(x.targets[0]): x.value for x in body if isinstance(x, ast.Assign)}
+    expect(ast.unparse(srcs.get("path")) == "pathlib.Path(path)" and ast.unparse(srcs.get("ext")) == "path.suffix", "fromFile: path / ext")
+    h = srcs.get("handlers")
+    expect(isinstance(h, ast.Dict), "fromFile: handlers dict")
+    order = []
+    for k, v in zip(h.keys, h.values):
+        ks, vs = ast.unparse(k), ast.unparse(v)
+        if ks == "cls.pickledExt" and vs == "cls.fromPickle":
+            order.append("pickled")
+        elif isinstance(k, ast.Constant) and isinstance(k.value, str) and vs != "cls.fromPickle":
+            order.append("map")
+        else:
+            raise TemplateMismatch(f"fromFile: handler {ks}: {vs}")
+    d["handlerOrder"] = order
+    ifs = [x for x in body if isinstance(x, ast.If)]
+    expect(len(ifs) >= 2 and ast.unparse(ifs[0].test) == "not ext", "fromFile: `if not ext` search")
+    search_ref = """
+def f(cls, path, handlers):
+    found = False
+    for ext in handlers:
+        newPath = path.with_suffix(ext)
+        if newPath.exists():
+            path = newPath
+            found = True
+            break
+    if not found:
+        raise FileNotFoundError(f'no readable maps found for path {path}')
+"""
+    expect(stmts_shape(ifs[0].body, ["cls", "path", "handlers"]) == shape(ast.parse(search_ref).body[0]),
+           "fromFile: search through the known formats")
+    d["notFoundErr"] = "fileNotFound"
+    el = ifs[0].orelse
+    expect(len(el) == 1 and isinstance(el[0], ast.If) and ast.unparse(el[0].test) == "ext not in handlers" and len(el[0].body) == 1
+           and isinstance(el[0].body[0], ast.Raise) and not el[0].orelse, "fromFile: unknown extension")
+    exc = el[0].body[0].exc
+    name = ast.unparse(exc.func if isinstance(exc, ast.Call) else exc)
+    d["unknownErr"] = {"ValueError": "valueError", "FileNotFoundError": "fileNotFound"}.get(name, "other")
+    expect(ast.unparse(ifs[1].test) == "ext == cls.pickledExt" and len(ifs[1].body) == 1
+           and ast.unparse(ifs[1].body[0]) == "return cls.fromPickle(path)" and not ifs[1].orelse, "fromFile: direct load of a .snet path")
+    withs = [x for x in body if isinstance(x, ast.With)]
+    expect(len(withs) == 1 and ast.unparse(withs[0].items[0].context_expr) == "open(path, 'rb')"
+           and ast.unparse(withs[0].body[0]) == "data = f.read()", "fromFile: reading the map file")
+    # order: extension handling, direct load, read + digests, cache guard
+    pos = {id(x): i for i, x in enumerate(body)}
+    guard = [x for x in body if isinstance(x, ast.If) and ast.unparse(x.test) == "useCache and pickledPath.exists()"]
+    expect(len(guard) == 1 and pos[id(ifs[0])] < pos[id(ifs[1])] < pos[id(withs[0])] < pos[id(guard[0])], "fromFile: statement order")
+
+
 
 def extract():
     src, tree = load(REL)
@@ -211,6 +508,8 @@ def extract():
     for n, (f, c) in d["lookups"]:
         for a in f + (c or []):
             expect(a in FIELD and FIELD[a], f"{n}: unknown element list self.{a}")
+    extract_elem_lookups(tree, d)
+    extract_direction(tree, d)
     # ---- cache header
     cfv = get_def(tree, "Network._currentFormatVersion", REL)
     ret = body_nodoc(cfv)[-1]
@@ -300,6 +599,7 @@ def extract():
     tail = body_nodoc(ff)[-3:]
     expect(ast.unparse(tail[0]) == "network = handlers[ext](path, **kwargs)" and isinstance(tail[1], ast.If)
            and ast.unparse(tail[1].test) == "writeCache" and ast.unparse(tail[2]) == "return network", "fromFile: tail")
+    extract_path(ff, d)
     dp = get_def(tree, "Network.dumpPickle", REL)
     writes = [ast.unparse(x.value.args[0]) for x in ast.walk(dp) if isinstance(x, ast.Expr) and isinstance(x.value, ast.Call)
               and isinstance(x.value.func, ast.Attribute) and x.value.func.attr == "write" and ast.unparse(x.value.func.value) == "f"]
@@ -326,6 +626,8 @@ def extract():
     expect(isinstance(cond, ast.If) and ast.unparse(cond.test) == "isinstance(value, (int, float, str))"
            and ast.unparse(upd(cond.body[0])) == "str(value).encode()", "deterministicHash: value encoding")
     d["placeholder"] = const_bytes(upd(cond.orelse[0]))
+    # ---- adjacency of lane sections (xodr_parser.py) and lane order of road sections
+    extract_adjacency(d)
     return d
 
 
@@ -339,8 +641,20 @@ def to_lean(d):
         c = f", child := some {paths(child)}" if child else ""
         lk.append(f'  ("{name}", {{ first := {paths(first)}{c} }})')
     nat_list = lambda l: "[" + ", ".join(map(str, l)) + "]"
+    el = []
+    for name, kind, first, child in d["elemLookups"]:
+        c = f", child := some .{FIELD[child]}" if child else ""
+        el.append(f'  ("{name}", {{ owner := .{kind}, first := .{FIELD[first]}{c} }})')
+
+    def chain(c):
+        def g(x):
+            return ".otherwise" if x[0] == "otherwise" else f".{x[0]} {lean_int(x[1])}"
+        return "[" + ", ".join(f"({g(gd)}, .{e[0]} {lean_int(e[1])})" for gd, e in c) + "]"
+    lb = lambda b: "true" if b else "false"
     return f"""import ScenicModel.Model.RoadLookup
+import ScenicModel.Model.RoadDirection
 import ScenicModel.Model.RoadCache
+import ScenicModel.Model.RoadAdjacency
 namespace Scenic.Gen.Roads
 open Scenic.Roads Scenic.RoadCache
 
@@ -364,5 +678,69 @@ def cacheCfg : Cfg :=
 /-- separators of `deterministicHash` (serialization.py) -/
 def hashCfg : HashCfg := {{ sepKey := {nat_list(d["sepKey"])}, sepVal := {nat_list(d["sepVal"])}, placeholder := {nat_list(d["placeholder"])} }}
 
+/-- the `…At` methods of network elements: class, list searched, second stage -/
+def elemLookups : List (String × ElemLookup) := [
+{(","+chr(10)).join(el)}
+]
+
+/-- `Road._defaultHeadingAt` -> `laneGroupAt`, `LaneGroup._defaultHeadingAt` -> `laneAt`: the lists through which the
+heading of a road descends to a lane (every method involved has the reference shape) -/
+def headingChain : List (Kind × Field) := [{", ".join(f"(.{k}, .{FIELD.get(f, f)})" for k, f in d["headingChain"])}]
+
+/-- the front of `Network.fromFile`: keys of `handlers` in order, the errors for "nothing found" / "unknown extension" -/
+def pathCfg : PathCfg :=
+  {{ handlerOrder := [{", ".join("." + x for x in d["handlerOrder"])}], notFoundErr := .{d["notFoundErr"]}, unknownErr := .{d["unknownErr"]} }}
+
+/-- xodr_parser.py `Road.toScenicRoad`: the `leftID` / `rightID` chains and the faster / slower assignment -/
+def adjCfg : Scenic.RoadAdj.Cfg :=
+  {{ left := {chain(d["adjLeft"])},
+    right := {chain(d["adjRight"])},
+    fasterIsLeftOnRight := {lb(d["fasterIsLeftOnRight"])}, dropOpposite := {lb(d["dropOpposite"])} }}
+
 end Scenic.Gen.Roads
 """
+
+
+# data of the pinned source (/repo at the time the check was finalised): written to Gen/Roads.lean when the template no
+# longer matches, so that the Lean side always builds and is the reference model; the tie then rests on the correspondence run
+PINNED = {'passes': ['exact', 'tolerant'],
+ 'lookups': [('elementAt', (['intersections', 'roads', 'shoulders', 'sidewalks'], None)),
+             ('roadAt', (['roads', 'connectingRoads'], None)),
+             ('laneAt', (['lanes'], None)),
+             ('laneSectionAt', (['lanes'], ['sections'])),
+             ('laneGroupAt', (['roads', 'connectingRoads'], ['laneGroups'])),
+             ('intersectionAt', (['intersections'], None)),
+             ('sidewalkAt', (['sidewalks'], None)),
+             ('shoulderAt', (['shoulders'], None)),
+             ('nominalDirElem', (['intersections', 'roads', 'shoulders'], None))],
+ 'elemLookups': [('Road.sectionAt', 'road', 'sections', None),
+                 ('Road.laneAt', 'road', 'lanes', None),
+                 ('Road.laneGroupAt', 'road', 'laneGroups', None),
+                 ('LaneGroup.laneAt', 'laneGroup', 'lanes', None),
+                 ('Lane.sectionAt', 'lane', 'sections', None),
+                 ('RoadSection.laneAt', 'roadSection', 'lanes', None),
+                 ('Road.laneSectionAt', 'road', 'lanes', 'sections')],
+ 'headingChain': [('road', 'groups'), ('laneGroup', 'lanes')],
+ 'formatVersion': 35,
+ 'versionBytes': 4,
+ 'digestBytes': 64,
+ 'optionsBytes': 8,
+ 'shortErr': 'unpickling',
+ 'versionErr': 'unpickling',
+ 'digestErr': 'digestMismatch',
+ 'optionsErr': 'digestMismatch',
+ 'payloadErr': 'unpickling',
+ 'caught': ['unpickling', 'digestMismatch'],
+ 'handlerOrder': ['map', 'pickled'],
+ 'notFoundErr': 'fileNotFound',
+ 'unknownErr': 'valueError',
+ 'sepKey': [0, 75],
+ 'sepVal': [0, 86],
+ 'placeholder': [0],
+ 'adjLeft': [(('lt', -1), ('add', 1)),
+             (('eq', -1), ('const', 1)),
+             (('eq', 1), ('const', -1)),
+             (('otherwise', 0), ('add', -1))],
+ 'adjRight': [(('lt', 0), ('add', -1)), (('otherwise', 0), ('add', 1))],
+ 'fasterIsLeftOnRight': True,
+ 'dropOpposite': True}
